@@ -64,6 +64,8 @@ def run(ctx):
             "buildNewInstanceSchedule's own-schedule condition, instance.Run's fire condition and discard report, re-read from core/engine; phoutAggregator.Report being exactly a plain send and Run draining the channel, re-read from core/aggregator/netsample/phout.go)",
             "translator harness/cmd/trC02 schedsync (C02's; the synchronisation skeleton of core/schedule/do_at.go Next/Start/Left and start_sync.go, "
             "re-read into Gen/SchedSyncGen.v; Gen/WaiterLeaf_bridge.v); Proofs/SchedLeafConcProofs.v leaf_one_start (C02's lemma) is used by C04_first_tokens_configured",
+            "translator harness/cmd/translate sched (C01's, read-only here: NewStep's loop - init, condition, increment, body exactly one unconditional "
+            "append of NewConst(i, duration) - and NewConst's token count / token time, re-read from core/schedule/{step,const}.go into Gen/SchedGen.v; Gen/WaiterStep_bridge.v)",
             "extraction: ExtrOcamlBasic only; OCaml driver ocaml/C04/main.ml + ocaml/common/conv.ml",
             "correspondence harness harness/cmd/hC04: real coreutil.Waiter on a mock schedule and real engine with a slow mock gun; "
             "booleans/inequalities only, planned margins >= 250 ms; an attempt during which a canary goroutine saw the machine unable to keep time (5 ms sleep overshooting by > 50 ms) is repeated",
